@@ -22,5 +22,15 @@ def run(ctx):
     if v["accepted"]:
         ctx.traces += 1
         ctx.extra["trace_events_validated"] = v["events"]
+        # the last row of the grid: a cell in row 1 048 576 (65 536 in xls) under header rows 0, the last row, u32::MAX
+        r2 = ctx.tlc("api", "MC_ReaderApi", "MC_ReaderApi_quick_hdrlast.cfg", workers=2, timeout=300, xmx="2g", name="MC_ReaderApi_hdrlast")
+        if "REPLAY" in r2["tags"]:
+            t2 = ctx.work + "/hdrlast_trace.ndjson"
+            ctx.replay("api", r2["tags"]["REPLAY"], extra=["--trace", t2])
+            v2 = ctx.validate_trace("api", "Trace_ReaderApi", "Trace_ReaderApi.cfg", t2, timeout=900, xmx="6g", name="trace_hdrlast")
+            if v2["accepted"]:
+                ctx.traces += 1
+            else:
+                ctx.fail("trace-rejected:Trace_ReaderApi:lastrow", {"kind": "trace", "trace": t2, "info": v2["info"], "tlc_output": v2["out"]})
     else:
         ctx.fail("trace-rejected:Trace_ReaderApi", {"kind": "trace", "trace": trace, "info": v["info"], "tlc_output": v["out"]})
